@@ -324,3 +324,20 @@ func ClientTLS() *tls.Config { tlsOnce.Do(genTLS); return cliTLS.Clone() }
 
 // CAPEM returns the harness CA certificate in PEM form.
 func CAPEM() []byte { tlsOnce.Do(genTLS); return caPEMData }
+
+// SelfSignedTLS returns a server configuration with a fresh self-signed certificate for name
+// that chains to nothing the harness CA (or anybody) trusts.
+func SelfSignedTLS(name string) *tls.Config {
+	key, _ := ecdsa.GenerateKey(elliptic.P256(), rand.Reader)
+	t := &x509.Certificate{
+		SerialNumber: big.NewInt(99), Subject: pkix.Name{CommonName: name},
+		NotBefore: time.Now().Add(-time.Hour), NotAfter: time.Now().Add(240 * time.Hour),
+		KeyUsage: x509.KeyUsageDigitalSignature, ExtKeyUsage: []x509.ExtKeyUsage{x509.ExtKeyUsageServerAuth},
+		DNSNames: []string{name, "localhost"}, IPAddresses: []net.IP{net.ParseIP("127.0.0.1")},
+	}
+	der, err := x509.CreateCertificate(rand.Reader, t, t, &key.PublicKey, key)
+	if err != nil {
+		panic(err)
+	}
+	return &tls.Config{Certificates: []tls.Certificate{{Certificate: [][]byte{der}, PrivateKey: key}}}
+}
